@@ -194,9 +194,10 @@ def main():
     items = []
     for scope, names, sel in (('ext', xn, xs), ('bas', bn, bs)):
         for i in sel:
-            days = interesting_days(zones.ORACLES[scope][names[i]], rnd, 6 if thorough else 3)
-            if not thorough and len(days) > 16:
-                days = sorted(rnd.sample(days, 16))
+            days = interesting_days(zones.ORACLES[scope][names[i]], rnd, 3)
+            cap = 18 if thorough else 16
+            if len(days) > cap:
+                days = sorted(rnd.sample(days, cap))
             items.append(dict(name='%s/%s' % (scope, names[i]), scope=scope, index=i, zone=names[i], days=days))
     years = sorted(set(range(1999, 2051)))
     lem = kc.run_items([dict(name='year_lemma/%d' % y, year=y) for y in years], jobs=16, fn=zones.run_year_lemma)
@@ -248,7 +249,7 @@ def main():
         'dates': sum(r['days'] for r in res), 'leaves': sum(r['leaves'] for r in res), 'queries_unsat': sum(r['unsat'] for r in res),
         'functions_encoded': sorted(set(f for r in res for f in r.get('functions', [])))[:80],
         'bounds': {'dates': 'every local date containing a zic discontinuity of the zone in 2000..2049 (in the offset before or after it), '
-                            'the days next to it, and seed-drawn ordinary dates; capped at 16 per zone in the quick tier',
+                            'the days next to it, and seed-drawn ordinary dates; capped at 16 (quick) / 18 (thorough) seed-drawn dates per zone',
                    'time_of_day': 'all 86400 seconds, symbolic', 'zones': 'quick: seed-drawn 24 extended + 10 basic plus, per database, one zone with a discontinuity in each calendar month; thorough: all', 'history': 'the processor is primed with an instant 300 days earlier before the resolution'},
         'outside_bounds': ['dates not selected (far from any transition, apart from the drawn ones)', 'wall times in 1999 / 2050'],
     }
